@@ -88,6 +88,21 @@ func main() {
 		}
 		reports = append(reports, eng.verifyContract(ct))
 	}
+	var gkeys []string
+	for k := range eng.globals {
+		gkeys = append(gkeys, k)
+	}
+	sort.Strings(gkeys)
+	for _, k := range gkeys {
+		gi := eng.globals[k]
+		if gi.establishedBy != "initializer" || !sel(gi.props) {
+			continue
+		}
+		if *only != "" && !strings.Contains("global:"+k, *only) {
+			continue
+		}
+		reports = append(reports, eng.verifyGlobalInit(k, gi))
+	}
 	for _, ln := range eng.specs.lorder {
 		lm := eng.specs.lemmas[ln]
 		if !sel(lm.Props) {
